@@ -24,6 +24,7 @@ func c15Gen(t *rapid.T, r *h.Rec) execCase {
 	o.TagVariety = false
 	o.DataIgnore = true
 	o.DataIgnoreUnions = true
+	o.LongArrays = true
 	o.SmallKeyMaps = true
 	o.JSONDash = true
 	// unbounded run-time recursion on self-referential types is a known finding (R29): gated
